@@ -22,6 +22,20 @@ CHECKS = {
         note='Sequences are lists/tuples of ints, parameters ints or numeric strings; announced '
              'neighbours are specified modulo clamping into 1..L; TLC and the JSON bridge are trusted.',
         ref='DESIGN.md section 4 C11'),
+    'C12': dict(
+        engine='DTBatch',
+        technique='TLA+ model (DTBatch, lazy-sequence pulls) checked by TLC; behaviours replayed with counting '
+                  'iterators; recorded pull counts validated by TLC (ObsBatch)',
+        text='The DTBatch machine models every probe of the code as a pull on a lazily produced sequence '
+             '(bounded or unbounded); TLC checks the pull bound at every step, monotonicity and termination '
+             'over the whole parameter space of the tier; every behaviour is replayed with counting '
+             'iterators/generators/lazy sequences and the per-row pull counts compared; departures, the '
+             'behaviours where the machine itself exceeds the strict bound, a sample and random larger '
+             'parameters are validated by TLC against the clause; hangs are caught by a watchdog.',
+        note='An iterator cannot be pulled out of order or twice by construction, so the clause checked is the '
+             'bound, monotonicity, termination and (unbatched) pull-all; previous-batches is only exercised for '
+             'overlap < size (its loop does not terminate otherwise, for any sequence).',
+        ref='DESIGN.md section 4 C12'),
 }
 
 REASON_PENDING = 'check not built yet in this round (planned, see DESIGN.md section 4)'
